@@ -158,3 +158,71 @@ def file_metadata(schema_elems, num_rows=0, row_groups=(), version=1):
 def parquet_file(meta_fields, body=b""):
     footer = enc_struct(meta_fields)
     return b"PAR1" + body + footer + _st.pack("<I", len(footer)) + b"PAR1"
+
+
+# ---------------------------------------------------------------- generic Thrift-compact reader (for page headers)
+
+def read_varint(buf, pos):
+    shift = val = 0
+    while True:
+        b = buf[pos]
+        pos += 1
+        val |= (b & 0x7F) << shift
+        shift += 7
+        if not b & 0x80:
+            return val, pos
+
+
+def unzigzag(n):
+    return (n >> 1) ^ -(n & 1)
+
+
+def dec_value(buf, pos, ty):
+    if ty in (T_TRUE, T_FALSE):
+        return ty == T_TRUE, pos
+    if ty == T_BYTE:
+        return buf[pos], pos + 1
+    if ty in (T_I16, T_I32, T_I64):
+        v, pos = read_varint(buf, pos)
+        return unzigzag(v), pos
+    if ty == T_DOUBLE:
+        return _st.unpack("<d", buf[pos:pos + 8])[0], pos + 8
+    if ty == T_BINARY:
+        n, pos = read_varint(buf, pos)
+        return bytes(buf[pos:pos + n]), pos + n
+    if ty == T_STRUCT:
+        return dec_struct(buf, pos)
+    if ty in (T_LIST, T_SET):
+        h = buf[pos]
+        pos += 1
+        n, ety = h >> 4, h & 15
+        if n == 15:
+            n, pos = read_varint(buf, pos)
+        out = []
+        for _ in range(n):
+            if ety in (T_TRUE, T_FALSE):
+                out.append(buf[pos] == 1)
+                pos += 1
+            else:
+                v, pos = dec_value(buf, pos, ety)
+                out.append(v)
+        return out, pos
+    raise ValueError("thrift type %d" % ty)
+
+
+def dec_struct(buf, pos=0):
+    """-> ({field_id: value}, position after the stop byte)"""
+    out, last = {}, 0
+    while True:
+        h = buf[pos]
+        pos += 1
+        if h == 0:
+            return out, pos
+        d, ty = h >> 4, h & 15
+        if d:
+            fid = last + d
+        else:
+            z, pos = read_varint(buf, pos)
+            fid = unzigzag(z)
+        last = fid
+        out[fid], pos = dec_value(buf, pos, ty)
